@@ -737,8 +737,19 @@ func checkC18(o checkOpts) int {
 	if len(b.Table.Degraded) > 0 {
 		fmt.Printf("SIM-DEGRADED: library constructs outside the serial scheduler's control: %s\n", strings.Join(b.Table.Degraded, "; "))
 	}
-	calibrate(b)
+	calib := calibrate(b)
 	thorough := o.tier == "thorough"
+	detChecked, detDiverged := 0, []string(nil)
+	if thorough {
+		// determinism self-test (DESIGN §4): same replay input, several executions, GOMAXPROCS 1/4/16/2
+		detChecked, detDiverged = determinismSelfTest(b, o.seed, 24, 4, o.procs)
+		if len(detDiverged) > 0 {
+			for _, d := range detDiverged {
+				logf("DIVERGENCE: %s", d)
+			}
+			infraFail("determinism self-test: %d of %d comparisons diverged", len(detDiverged), detChecked)
+		}
+	}
 	N := o.n(420, 12000)
 	findings := loadFindings()
 
@@ -924,9 +935,11 @@ func checkC18(o checkOpts) int {
 				"simulated":     []string{"caller goroutines and their schedule (serial baton over raw pipe syscalls)", "PixelData source and sink with fault plans"},
 				"not_exercised": []string{"go-dicom Transcoder and dataset layer"},
 			},
-			"build_s":      b.BuildS,
-			"instrumented": map[string]interface{}{"sites": len(b.Table.Sites), "hot_sites": len(b.hot), "packages": len(b.Table.Packages), "degraded": b.Table.Degraded, "map_loops_behind_seam": b.Table.MapLoops, "files_with_sync_shimmed": b.Table.SyncShimmed},
-			"tree":         b.Tree,
+			"calibration_race_reported_with_writer_parked_k_steps_after_store": calib,
+			"determinism_selftest_comparisons":                                 detChecked,
+			"build_s":                                                          b.BuildS,
+			"instrumented":                                                     map[string]interface{}{"sites": len(b.Table.Sites), "hot_sites": len(b.hot), "packages": len(b.Table.Packages), "degraded": b.Table.Degraded, "map_loops_behind_seam": b.Table.MapLoops, "files_with_sync_shimmed": b.Table.SyncShimmed},
+			"tree":                                                             b.Tree,
 		},
 		Assumptions: []string{
 			"a serialised interleaving is a legal execution; ThreadSanitizer sees the client goroutines as unordered because baton hand-offs are raw syscalls it does not model",
